@@ -80,11 +80,22 @@ class AstAnalyzer:
         """
 
         assigned_vars = self.assigned_vars(fun.body)
+        # A parameter of the function hides an outer-scope variable of the same name
+        args = fun.args
+        parameters = {
+            arg.arg
+            for arg in [*args.posonlyargs, *args.args, *args.kwonlyargs, args.vararg, args.kwarg]
+            if arg is not None
+        }
         for node in ast.walk(fun):
             if isinstance(node, ast.If):
                 if isinstance(node.test, ast.Name):
                     python_var = node.test.id
-                    if python_var not in assigned_vars and python_var in globals:
+                    if (
+                        python_var not in assigned_vars
+                        and python_var not in parameters
+                        and python_var in globals
+                    ):
                         # Condition depends on an outer-scope variable.
                         self._constant_if_condition[node] = bool(globals[python_var])
 
